@@ -188,6 +188,7 @@ class BaseComponent(Manager):
             self.parent = self
 
         self._updateRoot(self)
+        self._cache_needs_refresh = True
         return self
 
     def _updateRoot(self, root):
